@@ -3,7 +3,7 @@
    Proofs/, with Print Assumptions beneath it; Examples show non-vacuity and
    that the side conditions are needed. *)
 From Coq Require Import String Ascii Arith Bool List Reals QArith Qcanon.
-From ESRV Require Import Model.InvSubsText Model.SubsCancel Proofs.InvSubsTextProofs Proofs.SubsCancelProofs.
+From ESRV Require Import Common.Py Gen.GenCancel Model.InvSubsText Model.SubsCancel Proofs.InvSubsTextProofs Proofs.SubsCancelProofs Proofs.CancelGenProofs.
 Import ListNotations.
 Open Scope nat_scope.
 
@@ -129,6 +129,57 @@ Theorem C17_cancel_keeps_nan : forall (k : nat) (chain : list sub),
   exists c, sis_chain chain (all_dup k) = Some c /\ (In SNan c <-> In SNan chain).
 Proof. exact sis_chain_nan. Qed.
 Print Assumptions C17_cancel_keeps_nan.
+
+(* ---- C. the same, for the function REGENERATED from simplifier.py on every run (Gen/GenCancel.v) ---- *)
+
+(* the translated code computes the hand model: for every chain and every all_dup (any element equality) *)
+Theorem C17_code_is_model : forall inv dup : list sub,
+  GenCancel.simplify_inv_subs sub_eqb (Some inv) dup = SubsCancel.simplify_inv_subs inv dup.
+Proof. exact gen_is_model. Qed.
+Print Assumptions C17_code_is_model.
+
+(* None (a function without recorded substitutions) is passed through *)
+Theorem C17_code_none : forall (A : Type) (eqA : A -> A -> bool) (dup : list A),
+  GenCancel.simplify_inv_subs eqA None dup = Some None.
+Proof. exact (fun A eqA => @gen_simplify_none A eqA). Qed.
+Print Assumptions C17_code_none.
+
+(* the translated loop never raises, never runs out of fuel, and computes [cancel] *)
+Theorem C17_code_is_cancel : forall inv dup : list sub, gen_chain inv dup = Some (cancel dup inv).
+Proof. exact gen_chain_cancel. Qed.
+Print Assumptions C17_code_is_cancel.
+
+Theorem C17_code_preserves_composition : forall (interp : nat -> list R -> option (list R)) (k : nat) (chain : list sub) (e e' : list R),
+  k <= length e ->
+  compose R 0%R Ropp Rinv R_is_zero interp chain e = Some e' ->
+  exists c, gen_chain chain (all_dup k) = Some c /\ compose R 0%R Ropp Rinv R_is_zero interp c e = Some e'.
+Proof. exact gen_preserves_composition_R. Qed.
+Print Assumptions C17_code_preserves_composition.
+
+Theorem C17_code_preserves_composition_Qc : forall (interp : nat -> list Qc -> option (list Qc)) (k : nat) (chain : list sub) (e e' : list Qc),
+  k <= length e ->
+  compose Qc (Q2Qc 0) Qcopp Qcinv Qc_is_zero interp chain e = Some e' ->
+  exists c, gen_chain chain (all_dup k) = Some c /\ compose Qc (Q2Qc 0) Qcopp Qcinv Qc_is_zero interp c e = Some e'.
+Proof. exact gen_preserves_composition_Qc. Qed.
+Print Assumptions C17_code_preserves_composition_Qc.
+
+Theorem C17_code_removes_pairs : forall (k : nat) (chain : list sub),
+  exists c, gen_chain chain (all_dup k) = Some c /\ removes_pairs (all_dup k) chain c.
+Proof. exact gen_removes_pairs. Qed.
+Print Assumptions C17_code_removes_pairs.
+
+Theorem C17_code_keeps_nan : forall (k : nat) (chain : list sub),
+  exists c, gen_chain chain (all_dup k) = Some c /\ (In SNan c <-> In SNan chain).
+Proof. exact gen_keeps_nan. Qed.
+Print Assumptions C17_code_keeps_nan.
+
+Example C17_ex_code_run :
+  GenCancel.simplify_inv_subs sub_eqb (Some [SNeg 0; swap 1 0; swap 1 0; SOther 7; SInv 1; SInv 1]) (all_dup 2)
+  = Some (Some [SNeg 0; SOther 7]).
+Proof. vm_compute. reflexivity. Qed.
+Example C17_ex_code_all_cancelled :
+  GenCancel.simplify_inv_subs sub_eqb (Some [SInv 0; SInv 0]) (all_dup 1) = Some None.
+Proof. vm_compute. reflexivity. Qed.
 
 (* ---- non-vacuity and necessity of the side conditions ---------------- *)
 Definition s2 (l : str) : string := string_of_list_ascii l.
